@@ -10,6 +10,8 @@
  *                               announced to the controller ("<id> <M|R> <call> <path> ...\n") and the thread waits
  *                               for one byte: 'g' go, 'k' kill self (SIGKILL), 'b' (flock only) = report busy again.
  *   VPSCHED_ID=<name>           identity announced to the controller
+ *   VPSCHED_ONLY=<name>         act only in processes whose executable's base name is <name> (default "copia");
+ *                               helper processes (bash, cat, mv, xargs, ...) inherit the environment but are left alone
  * flock(LOCK_EX) in gate mode is turned into a non-blocking attempt; when the lock is busy the shim tells the
  * controller ("... flock-busy") and waits at the gate again, so a released process never blocks inside the kernel.
  * The shim never reorders, drops or alters a call. */
@@ -40,7 +42,7 @@ static int (*real_close)(int);
 static pthread_mutex_t mu = PTHREAD_MUTEX_INITIALIZER;
 static int mut_count = 0, all_count = 0, sock_fd = -2, inited = 0;
 static const char *watch, *logf, *sockp, *ident;
-static int kill_at = 0, pipes = 0, gate_stdin = 0;
+static int kill_at = 0, pipes = 0, gate_stdin = 0, disabled = 0;
 
 static void init(void) {
   if (inited) return;
@@ -60,6 +62,16 @@ static void init(void) {
   if (k) kill_at = atoi(k);
   pipes = getenv("VPSCHED_PIPES") != NULL;
   gate_stdin = getenv("VPSCHED_GATE_STDIN") != NULL;
+  {
+    const char *only = getenv("VPSCHED_ONLY");
+    if (!only) only = "copia";
+    char exe[4096];
+    ssize_t r = readlink("/proc/self/exe", exe, sizeof exe - 1);
+    exe[r > 0 ? r : 0] = 0;
+    const char *base = strrchr(exe, '/');
+    base = base ? base + 1 : exe;
+    if (*only && strcmp(base, only) != 0) disabled = 1;
+  }
 }
 
 static void fd_path(int fd, char *out, size_t n) {
@@ -98,6 +110,7 @@ static int considered(const char *a, const char *b) {
 static int announce(int mutating, const char *call, const char *a0, const char *b0, const char *extra) {
   char buf[20000], a[8192], b[8192];
   int ans = 'g';
+  if (disabled) return ans;
   esc(a0, a, sizeof a);
   esc(b0, b, sizeof b);
   pthread_mutex_lock(&mu);
